@@ -16,7 +16,8 @@ def all_cases(tier):
     for ep, nb, vb, ev, cb, init in itertools.product((0, 1, 2, 3), (1, 2, 3), (None, 1, 2), (None, "binary", "multi-class", "categorical", "multi-class+callbacks"),
                                                        (False, True, "flip", "peek"), ("train", "eval", "train+bn_eval", "eval+dropout_train")):
         out.append({"epochs": ep, "train_batches": nb, "val_batches": vb, "evaluator": ev, "callbacks": cb, "initial_mode": init})
-    return out + uneven_cases() + evaluator_cases()
+    zero = [{"zero_metric": True, "which": w, "epochs": ep, "val": val} for w in ("accuracy", "loss") for ep in (1, 2, 3) for val in (False, True)]
+    return out + uneven_cases() + evaluator_cases() + zero
 
 def _data(nb, mode, salt):
     n = nb * BATCH + (2 if nb else 0)            # a few left-over samples that never form a batch
@@ -340,6 +341,44 @@ def evaluator_cases():
             out.append({"evaluator_case": True, "mode": "categorical", "batches": [[[r1, r2], [np.eye(3)[l1].tolist(), np.eye(3)[l2].tolist()]]]})
     return out
 
+def judge_zero_metric(case):
+    """epochs in which a recorded metric is exactly 0.0 (every prediction wrong: accuracy 0; a model that already fits: loss 0)
+    still get their entry: one entry per epoch for the loss and every metric"""
+    sg = harness.load(); nn = sg.nn
+    from synapgrad.nn.utils import train as TR
+    harness.reset_modes(verify=False)
+    viol = []
+    def v(sym, detail):
+        if all(x["kind"] != sym for x in viol): viol.append({"kind": sym, "detail": detail})
+    epochs, which, val = case["epochs"], case["which"], case["val"]
+    sg.manual_seed(5)
+    X = [(np.sin(np.arange(4 * NF) * 0.41 + k) * 1.5).reshape(4, NF).astype(np.float32) for k in range(3)]
+    if which == "accuracy":
+        model = nn.Linear(NF, 3); crit = nn.CrossEntropyLoss(); ev = TR.Evaluator(mode="multi-class")
+        with sg.no_grad(): labs = [((np.argmax(np.asarray(model(sg.Tensor(x)).data), 1) + 1) % 3).astype(np.int64) for x in X]
+    else:
+        model = nn.Linear(NF, 1); crit = nn.MSELoss(); ev = None
+        with sg.no_grad(): labs = [np.asarray(model(sg.Tensor(x)).data).reshape(-1).astype(np.float32) for x in X]
+    loader = [(sg.Tensor(x), sg.Tensor(l)) for x, l in zip(X, labs)]
+    tr = TR.Trainer(model, sg); tr.compile(crit, sg.optim.SGD(model.parameters(), lr=0.0), ev)
+    try:
+        hist = tr.fit(loader, epochs, loader[:2] if val else None)
+    except Exception as e:
+        v("fit-raised", f"{type(e).__name__}: {str(e)[:100]}")
+        return {"nontrivial": True, "outcome": "raise", "violations": viol}
+    finally:
+        harness.reset_modes(verify=False)
+    keys = {"loss"} | ({"accuracy"} if ev else set())
+    if val: keys |= {"val_" + k for k in keys}
+    if set(hist.keys()) != keys:
+        v("history-keys", f"{which} is exactly 0.0 in every epoch: history keys {sorted(hist.keys())}, expected {sorted(keys)}")
+    for k in keys & set(hist.keys()):
+        if len(hist[k]) != epochs: v("history-length", f"{which} is exactly 0.0 in every epoch: history[{k!r}] has {len(hist[k])} entries for {epochs} epochs")
+    zero_keys = [k for k in keys if k.endswith(which)]
+    for k in zero_keys:
+        if k in hist and any(abs(float(x)) > 1e-12 for x in hist[k]): v("history-value", f"history[{k!r}] = {list(hist[k])}, expected zeros")
+    return {"nontrivial": True, "outcome": "ok", "violations": viol, "events": epochs}
+
 def uneven_cases():
     out = []
     for st in ([4, 2, 3], [1, 5], [3], [2, 2, 2, 7]):
@@ -350,6 +389,7 @@ def uneven_cases():
 
 def dispatch(case):
     if case.get("evaluator_case"): return judge_evaluator(case)
+    if case.get("zero_metric"): return judge_zero_metric(case)
     return judge_uneven(case) if case.get("uneven") else judge(case)
 
 def replay(case):
@@ -361,7 +401,7 @@ def run(tier, seed):
     harness.load()
     import synapgrad.nn.utils.train      # import (sklearn, matplotlib) once, before forking
     r = engine.run_cases(cases, dispatch)
-    ntrans = sum(c["epochs"] * (c["train_batches"] * 5 + (c["val_batches"] or 0) * 2) for c in cases if not c.get("uneven") and not c.get("evaluator_case")) \
+    ntrans = sum(c["epochs"] * (c["train_batches"] * 5 + (c["val_batches"] or 0) * 2) for c in cases if not c.get("uneven") and not c.get("evaluator_case") and not c.get("zero_metric")) \
              + sum(c["epochs"] * (len(c["train_sizes"]) * 5 + len(c["val_sizes"] or []) * 2) for c in cases if c.get("uneven"))
     cov = {"states": r["evaluations"], "transitions": ntrans, "traces_validated_against_impl": r["evaluations"],
            "evaluations": r["evaluations"], "distinct_nontrivial": r["distinct_nontrivial"], "samples": r["samples"], "exhaustive": True,
@@ -370,6 +410,6 @@ def run(tier, seed):
                    "Dropout+Linear; every optimizer.zero_grad/step, model.forward, criterion and backward call is recorded with model.training "
                    "(all submodules) and the probed grad mode and matched against the automaton (forward, loss, zero_grad, backward, step)* "
                    "per batch, eval/no-grad/no-state-change validation, history keys and lengths, epoch loss = mean of batch losses, accuracy "
-                   "recomputed per label mode; test() in both outer grad modes; a second fit() on the same Trainer (1 epoch, no validation loader) has its own history; plus the Evaluator alone over every score vector of length <= 3 from {-1,.2,.5,.7,1.6,2} (binary) and arg-max patterns incl. ties (vector modes); plus 24 runs with user-supplied loaders (lists of batches of unequal sizes): one step per batch, epoch loss = mean of the per-batch losses; states = runs, transitions = monitored calls; non-trivial = epochs >= 1"}
+                   "recomputed per label mode; test() in both outer grad modes; a second fit() on the same Trainer (1 epoch, no validation loader) has its own history; plus 12 runs whose accuracy / loss is exactly 0.0 in every epoch (entries still recorded); plus the Evaluator alone over every score vector of length <= 3 from {-1,.2,.5,.7,1.6,2} (binary) and arg-max patterns incl. ties (vector modes); plus 24 runs with user-supplied loaders (lists of batches of unequal sizes): one step per batch, epoch loss = mean of the per-batch losses; states = runs, transitions = monitored calls; non-trivial = epochs >= 1"}
     return {"level": "model_checking", "violations": r["violations"], "coverage": cov,
             "assumptions": ["loaders with zero batches are left out (the statement's counts are vacuous there)", "batch size 4; lr 0.05; SGD"]}
